@@ -4,6 +4,7 @@
   (C13_packet_exact, C13_packet_descriptions_exact) cover them.
 -/
 import Imeta.Props.C13i
+import Imeta.Lemmas.XmpAttrLong
 namespace Imeta.Props.C13
 open Imeta Imeta.Xmp
 
@@ -53,5 +54,19 @@ example : ((readTag 6 descTag { rest := serC [([], .elem eMake), ([], .solo nBag
 def d0 : DescR := { D := nDesc, wsV := [], ws2 := [], la := [], cs := [([], .elem eModel)] }
 example : ((readTag 5 {} { rest := d0.ser ("</rdf:RDF>").toUTF8.toList, a := false, toks := [] }).2.toks.map (·.val), d0.ser [] ) =
     ([[69, 79, 83]], ("<rdf:Description><tiff:Model>EOS</tiff:Model></rdf:Description>").toUTF8.toList) := by decide +kernel
+
+/-- **An attribute value of any length up to 1275 bytes** (the property's 1..1024-byte values that straddle the 256 / 768 /
+1280-byte look-ahead steps included) **is returned exactly**: a window that does not hold the closing quote and the two bytes
+behind it is given up without consuming anything, the next one is tried, and the value comes back as written — the result
+does not depend on where the value ends relative to the window steps. -/
+theorem C13_attribute_value_any_length (tag : Tag) (st : St) (v t'' : Bytes) (q c1 c2 : UInt8)
+    (hq : q = 34 ∨ q = 39) (hv : ∀ x ∈ v, (x == q) = false) (h62 : c1 ≠ 62) (h47 : c1 ≠ 47) (hlen : v.length + 5 ≤ 1280)
+    (hr : st.rest = [61, q] ++ v ++ [q, c1, c2] ++ t'') :
+    readAttrValue tag 8 256 st = (.ok (v, tag), { st with rest := [c1, c2] ++ t'' }) :=
+  readAttrValue_any tag st v t'' q c1 c2 hq hv h62 h47 hlen hr
+
+/-- non-vacuity: a 1000-byte value (third window) -/
+example : (readAttrValue {} 8 256 { rest := [61, 34] ++ List.replicate 1000 65 ++ [34, 32, 120] ++ [], a := true, toks := [] }).1.toOption.map (fun r => r.1.length) = some 1000 := by
+  decide +kernel
 
 end Imeta.Props.C13
